@@ -152,6 +152,8 @@ class Check(PropertyCheck):
             L = max(len(job) for job in I.jobs)
             if arr.shape != (len(I.jobs), L):
                 res.append(("view:padded", f"durations_matrix_array shape {arr.shape}"))
+        elif line == "dict" and out.startswith("raise"):
+            res.append(("roundtrip:dict", f"the dictionary round trip of a valid instance raised: {out}"))
         elif line in ("dict", "taillard") and out != "n/a":
             orig, back, d = impl.last_roundtrip
             a, b = oracles.dump_instance(orig), oracles.dump_instance(back)
